@@ -4,6 +4,7 @@
 -/
 import BioCantor.Proofs.LiftDefs
 import BioCantor.Proofs.RelInterval
+import BioCantor.Proofs.LiftChunk
 namespace BioCantor.Proofs
 open BioCantor BioCantor.Spec BioCantor.Model
 
@@ -18,7 +19,7 @@ theorem liftToSeq_ok (k : SeqKey) (c : Location) (ch : Chain) (hc : WF c) (hch :
   sorry
 
 theorem chunkDown_ok (l : Location) (hl : WF l) (w : Blk) (wst : Strand) :
-    okChunkDown l w wst (ans (chunkDown l w wst)) = true := by
-  sorry
+    okChunkDown l w wst (ans (chunkDown l w wst)) = true :=
+  chunkDown_spec l hl w wst
 
 end BioCantor.Proofs
